@@ -142,7 +142,15 @@ namespace c16
         for (int i = 0; i < nops; i++)
         {
             Json op = Json::object();
-            int k = (int)g.below(12);
+            int k = (int)g.below(13);
+            if (k == 12)
+            {
+                // the user changes the constraint's tolerance between uses of the (stateful) space
+                op["op"] = "set_tolerance";
+                op["tolerance"] = g.pick(std::vector<double>{1e-3, 1e-4, 1e-5, 1e-6, 1e-7});
+                ops.push(op);
+                continue;
+            }
             if (k < 3)
             {
                 static const char *rs[] = {"uniform", "near", "gauss"};
@@ -290,6 +298,20 @@ namespace c16
             bool f5 = rngfault::arm(op["fault"]);
             con->naturalFailures();
             std::string when = fmt("op %zu (%s%s%s)", oi, k.c_str(), f7 ? ", projection failure injected" : "", f5 ? ", extreme-draw burst" : "");
+            if (k == "set_tolerance")
+            {
+                con->disarm();
+                rngfault::disarm();
+                con->setTolerance(op.getd("tolerance", 1e-4));
+                tol = con->getTolerance() * (1 + 1e-9);
+                res.probes["tolerance-changed-mid-history"]++;
+                // the end points used from here on must satisfy the new tolerance themselves
+                css->copyState(from, A.get());
+                css->copyState(to, B.get());
+                if (!con->isSatisfied(from) || !con->isSatisfied(to))
+                    break;
+                continue;
+            }
             if (k == "raw")
             {
                 std::string how = op.gets("how");
